@@ -183,7 +183,17 @@ func asm15Exec(c *Ctx, op string) {
 		if terr != nil {
 			tdErrText = terr.Error()
 		}
-		out += fmt.Sprintf(" td=%s tderr=%v", strings.Join(tdLog, ","), tdErr)
+		// which failure is reported: the id the scripted janitor put into its error (the model's firstErr)
+		tdTok := "false"
+		if tdErr {
+			tdTok = "?"
+			if k := strings.Index(tdErrText, "injected teardown failure "); k >= 0 {
+				var id int
+				fmt.Sscan(tdErrText[k+len("injected teardown failure "):], &id)
+				tdTok = fmt.Sprint(id)
+			}
+		}
+		out += fmt.Sprintf(" td=%s tderr=%s", strings.Join(tdLog, ","), tdTok)
 		// a caller that retries the teardown (say, after it failed) gets the same rule again: newest first, nothing
 		// deleted after a failure — the scripted janitors answer as before
 		n1 := len(log)
